@@ -55,7 +55,7 @@ def run_verus(path, rlimit=60, extra=()):
     return " ".join(cmd), p.returncode, out, diags, p.stderr, wall
 
 
-SEMANTIC = ("postcondition not satisfied", "precondition not satisfied", "invariant not satisfied", "assertion failed",
+SEMANTIC = ("precondition not met", "postcondition not satisfied", "precondition not satisfied", "invariant not satisfied", "assertion failed",
             "possible arithmetic underflow/overflow", "possible division by zero", "decreases not satisfied",
             "loop ensures not satisfied", "possible bit shift underflow/overflow", "recommendation not met",
             "cannot show invariant holds", "unable to prove", "not all errors may have been reported")
